@@ -75,6 +75,7 @@ static void run_op(Th& t, const std::string& opline) {
     if (op.empty()) return;
     std::string a, b, c; double d = 0; GEOSContextHandle_t h = t.h;
     if (op == "ctx") { t.close(); t.open(); return; }
+    if (op == "dump") { ss >> a; const GEOSGeometry* g = t.get(a); char* w = g ? GEOSWKTWriter_write_r(h, t.tw, g) : nullptr; fprintf(stderr, "DUMP %s %s\n", a.c_str(), w ? w : "NULL"); if (w) GEOSFree_r(h, w); return; }   // debugging aid, never generated
     if (op == "wkb") { ss >> a >> b; t.put(a, GEOSGeomFromHEX_buf_r(h, (const unsigned char*)b.data(), b.size())); return; }
     if (op == "free") { ss >> a; t.put(a, nullptr); return; }
     if (op == "clone") { ss >> a >> b; const GEOSGeometry* g = t.get(b); t.put(a, g ? GEOSGeom_clone_r(h, g) : nullptr); t.emit(t.gh(t.get(a))); return; }
